@@ -57,6 +57,22 @@ def check_merge(task):
             return V("merge-with-uncommitted-not-refused", "merge_files succeeded although a writable container exists")
         except Exception:
             pass
+        # ... also when the uncommitted container is only visible on disk (record left uncommitted, opened read-only)
+        nck += 1
+        rec.close(commit=False)
+        rro = cls(os.path.join(d, "rec"), "r")
+        try:
+            try:
+                rro.merge_files(Path(md) / "early2")
+                return V("merge-with-uncommitted-not-refused", "merge_files succeeded on a record whose newest container is uncommitted (opened with 'r')")
+            except Exception:
+                pass
+            left = [f for f in os.listdir(md) if f.startswith("early")]
+            if left:
+                return V("refused-merge-left-files", f"refused merge left files behind: {left}")
+        finally:
+            rro.close()
+        rec = cls(os.path.join(d, "rec"), "r+")  # continues the uncommitted container
         rec.commit_patch()
         pre_view = ih5lib.dump(rec)
         pre_meta = _meta(rec)
